@@ -103,6 +103,8 @@ STATEFUL = ("PyDict_Next(",)
 # dictionary lookups: their result reflects the heap at the time of the call
 LOOKUPS = {"PyDict_GetItem", "PyDict_GetItemWithError", "dict_getitem"}
 LOOKUP_TEXTS = ("dict_getitem(", "PyDict_GetItem(", "PyDict_GetItemWithError(")
+# in-file helpers inferred to be lookups (set by cfacts for the current source)
+EXTRA_LOOKUPS = frozenset()
 
 
 class SymPath:
@@ -141,7 +143,7 @@ class SymPath:
         for it in self.trace:
             if it[0] == "call":
                 c = it[1]
-                if c in LOOKUPS:
+                if c in LOOKUPS or c in EXTRA_LOOKUPS:
                     eval_epoch[it[3]] = epoch
                 elif (c in API and API[c]["python"]) or c.startswith("->"):
                     epoch += 1
@@ -157,7 +159,8 @@ class SymPath:
             if any(f in text for f in STATEFUL):
                 continue        # iterator-like call: may legitimately flip
             key = text
-            if eval_epoch and any(l in text for l in LOOKUP_TEXTS):
+            if eval_epoch and (any(l in text for l in LOOKUP_TEXTS) or any(
+                    (x + "(") in text for x in EXTRA_LOOKUPS)):
                 key = (text, tuple(sorted((L, e) for L, e in eval_epoch.items()
                                           if L in text)))
             if seen.setdefault(key, truth) != truth:
